@@ -78,6 +78,20 @@ from pyvc.unit import LoopSpec  # noqa: E402
 c.loop(0, LoopSpec(invariants=[], shapes={"entry": lambda it: strmodel.HavocDict()}))
 
 
+def mlsx_locals(fn):
+    """the dict of facts: the local the fact loop stores into (`<entry>[...] = ...`)"""
+    import ast
+
+    loops = [n for n in ast.walk(fn) if isinstance(n, ast.For)]
+    tg = [n.targets[0].value.id for lp in loops for n in ast.walk(lp) if isinstance(n, ast.Assign) and isinstance(n.targets[0], ast.Subscript) and isinstance(n.targets[0].value, ast.Name)]
+    if len(set(tg)) != 1:
+        raise KeyError("parse_mlsx_line: fact dictionary not identified")
+    return {"entry": tg[0]}
+
+
+c.alias_resolver = mlsx_locals
+
+
 # ------------------------------------------------------------------------------------ build_mlsx_string (name part)
 def setup_build_mlsx(u):
     it = u.it
